@@ -401,9 +401,11 @@ def _trim_Q(tier, drv):
             c.count("bottom-of-grid-break")
         if bins > 1 and (Fraction(99 * mo["stop"] * (n - 1), 100 * (bins - 1))).denominator > 1:
             c.count("stop-pass-interpolates")
+        inplace = all(float(x / sum(ws)) == y for x, y in zip(ws, wc.tolist()))
+        c.count("caller-array:normalised-in-place" if inplace else ("caller-array:untouched" if wc.tolist() == wf else "caller-array:OTHER"))
         same = (s.tolist() == mo["idx"] and len(wt) == len(mo["wt"])
                 and all(float(q) == x for q, x in zip(mo["wt"], wt.tolist()))
-                and all(float(x / sum(ws)) == y for x, y in zip(ws, wc.tolist())))
+                and (inplace or wc.tolist() == wf))
         if not same:
             c.disagree(kind="trim", w_hex=[f2hex(x) for x in wf], ess=ess, bins=bins,
                        impl=[s.tolist()[:60], [f2hex(x) for x in wt.tolist()[:20]]],
@@ -722,11 +724,15 @@ def oracle_ess(w):
 
 
 def oracle_trim(w, ess, bins):
+    """the trimming contract on the REAL trim_weights, for weights of ANY overall scale (they need not sum to one):
+       normalised, aligned, exactly an upper set of the input weights, ESS(trimmed) >= min(ess,1) * ESS(all).
+       What happens to the caller's array (rescaled in place or left alone) is NOT part of the contract: it is a
+       call-site fact, checked where the Trainer hands the array on to the Resampler (suite callsite-train)."""
     t = _tools()
     n = len(w)
     w0 = np.array(w, dtype=float)
     try:
-        s2, wt, wc = _run_trim(w, ess, bins, two_d=True)
+        s2, wt, _ = _run_trim(w, ess, bins, two_d=True)
     except Exception as e:  # noqa
         return f"trim_weights raised {type(e).__name__}: {e}"
     if s2.ndim != 2 or len(s2) != len(wt):
@@ -740,26 +746,36 @@ def oracle_trim(w, ess, bins):
         return f"kept indices not an increasing subset of range(n): {idx.tolist()[:20]}"
     if not (abs(float(np.sum(wt)) - 1.0) <= 1e-9) or np.any(wt < 0):
         return f"returned weights not normalised: sum = {float(np.sum(wt))!r}"
-    # wc is the caller's array after the in-place normalisation
-    if not np.allclose(wc, w0 / np.sum(w0), rtol=1e-12, atol=1e-300):
-        return "in-place normalised weights are not proportional to the input"
     kept = np.zeros(n, dtype=bool)
     kept[idx] = True
-    thr = wc[kept].min()
-    if np.any(wc[~kept] >= thr):
-        j = int(np.flatnonzero(~kept & (wc >= thr))[0])
-        return f"not an upper set: index {j} (weight {wc[j]!r}) dropped although >= smallest kept weight {thr!r}"
-    ks = float(np.sum(wc[kept]))
-    if not np.allclose(wt * ks, wc[kept], rtol=1e-12, atol=0.0):
+    # upper set of the INPUT weights (division by a positive sum is monotone, so ties in w0 stay ties after normalisation;
+    # two different inputs can collapse to one double, hence the comparison on both w0 and w0/sum)
+    cm = _quiet()
+    try:
+        wn = w0 / np.sum(w0)
+    finally:
+        cm.__exit__(None, None, None)
+    thr = w0[kept].min()
+    out = ~kept & (w0 >= thr) & (wn >= wn[kept].min())
+    if np.any(out):
+        j = int(np.flatnonzero(out)[0])
+        return f"not an upper set: index {j} (weight {w0[j]!r}) dropped although >= smallest kept weight {thr!r}"
+    ks = float(np.sum(wn[kept]))
+    if not np.allclose(wt * ks, wn[kept], rtol=1e-11, atol=0.0):
         return "returned weights are not the kept weights renormalised (misaligned)"
     cm = _quiet()
     try:
         e1 = float(t.effective_sample_size(wt.copy()))
         e0 = float(t.effective_sample_size(w0.copy()))
+        # the statement's ESS, not the library's own helper (which a change may have touched): Kish on the normalised input
+        k0 = 1.0 / float(np.sum(wn ** 2.0))
+        k1 = 1.0 / float(np.sum((wt / np.sum(wt)) ** 2.0))
     finally:
         cm.__exit__(None, None, None)
-    if not (e1 >= min(ess, 1.0) * e0 * (1 - 1e-12)):
-        return f"ESS guarantee broken: ESS(trimmed) = {e1!r} < {min(ess, 1.0)} * ESS(all) = {min(ess, 1.0) * e0!r}"
+    f = min(ess, 1.0)
+    if not (e1 >= f * e0 * (1 - 1e-12)) or not (k1 >= f * k0 * (1 - 1e-9)):
+        return (f"ESS guarantee broken (sum(w) = {float(np.sum(w0))!r}): ESS(trimmed) = {k1!r} < {f} * ESS(all) = {f * k0!r}"
+                f" (ratio {k1 / k0:.6f}, {len(idx)} of {n} kept)")
     return None
 
 
@@ -891,6 +907,7 @@ def search(tier, hints):
         else:
             tr.append((w, rng.choice([0.3, 0.5, 0.9, 0.99, 0.999]), rng.choice([1, 2, 3, 10, 100, 1000])))
     tr += [([1.0, 2.0, 3.0], 512.0, 10), ([0.75, 0.4375, 0.1875], 1.0, 1000), ([3.0, 1.0, 2.0], 0.9, 1)]
+    tr = c20_audit.unnormalised_trim_cases(rng, 120 if big else 40) + tr
     for w, ess, bins in tr:
         try:
             m = c20_audit.trim_property(w, ess, bins)[0]
